@@ -223,11 +223,20 @@ def outcome_class(e: BaseException) -> str:
     return 'raw:' + type(e).__name__
 
 
+def clear_tables():
+    """emulate a fresh memo state: empty EVERY module-level dict of beartype._conf.confmain (in the pinned
+    source that is the one memo table `_beartype_conf_args_to_conf`)"""
+    from beartype._conf import confmain
+    for name, val in vars(confmain).items():
+        if type(val) is dict and not name.startswith('__'):
+            val.clear()
+
+
 def run_history(history, names, clear: bool):
     w = world()
     from beartype._conf import confmain
     if clear:
-        confmain._beartype_conf_args_to_conf.clear()
+        clear_tables()
     initial = len(confmain._beartype_conf_args_to_conf)
     objs: list = []       # distinct objects in order of first appearance
     results: list = []    # per op
@@ -283,7 +292,7 @@ def run_history(history, names, clear: bool):
         if op[0] != 'new':
             isolated.append(None)
             continue
-        confmain._beartype_conf_args_to_conf.clear()
+        clear_tables()
         if op[1] is None:
             os.environ.pop(ENV_NAME, None)
         else:
@@ -297,7 +306,7 @@ def run_history(history, names, clear: bool):
             if isinstance(e, (KeyboardInterrupt, SystemExit, MemoryError)):
                 raise
             isolated.append(outcome_class(e))
-    confmain._beartype_conf_args_to_conf.clear()
+    clear_tables()
     os.environ.pop(ENV_NAME, None)
     pairs = []
     for i in range(len(objs)):
@@ -306,6 +315,46 @@ def run_history(history, names, clear: bool):
             pairs.append([i, j, bool(a == b), bool(b == a), bool(a != b), hash(a) == hash(b)])
     hashes_stable = all(hash(o) == hash(o) and o == o and not (o != o) for o in objs)
     return {'results': results, 'pairs': pairs, 'self_ok': hashes_stable, 'n_objs': len(objs), 'isolated': isolated}
+
+
+def thread_burst(histories, rounds=6, nthreads=8):
+    """smoke evidence for "from any thread": `nthreads` threads released together construct the same
+    keyword dictionary on an emptied table; all must get one object (no controlled scheduler: C15)"""
+    import threading
+    w = world()
+    from beartype._conf import confmain
+    kws = []
+    for h in histories:
+        for op in h:
+            if op[0] == 'new' and op[1] is None and len(kws) < rounds:
+                kws.append(op[2])
+    old = sys.getswitchinterval()
+    sys.setswitchinterval(1e-6)
+    bad = []
+    try:
+        for kwi in kws:
+            clear_tables()
+            kw = {n: w.pool[i] for n, i in kwi}
+            bar = threading.Barrier(nthreads)
+            got = [None] * nthreads
+
+            def work(k):
+                bar.wait()
+                try:
+                    with warnings.catch_warnings():
+                        warnings.simplefilter('ignore')
+                        got[k] = w.BeartypeConf(**kw)
+                except BaseException as e:   # noqa: BLE001
+                    got[k] = outcome_class(e)
+            ts = [threading.Thread(target=work, args=(k,)) for k in range(nthreads)]
+            [t.start() for t in ts]
+            [t.join() for t in ts]
+            if not all((g is got[0]) or (isinstance(g, str) and g == got[0]) for g in got):
+                bad.append(kwi)
+    finally:
+        sys.setswitchinterval(old)
+        clear_tables()
+    return {'rounds': len(kws), 'bad': bad}
 
 
 def initial_table(names):
@@ -317,15 +366,59 @@ def initial_table(names):
     return out
 
 
+ANCHORED = ('beartype/_conf/confmain.py', 'beartype/_conf/conftest.py', 'beartype/_conf/_confoverrides.py',
+            'beartype/_conf/_confget.py', 'beartype/_conf/confcommon.py')
+
+
+def executable_lines(path):
+    """line numbers carrying code in functions/methods of `path` (module-level statements run at import)"""
+    lines = set()
+
+    def walk(code):
+        if code.co_flags & 0x1:      # CO_OPTIMIZED: a function body (module and class bodies run at import)
+            lines.update(ln for _, _, ln in code.co_lines() if ln is not None and ln > code.co_firstlineno + 1)
+        for c in code.co_consts:
+            if hasattr(c, 'co_lines'):
+                walk(c)
+    walk(compile(open(path).read(), path, 'exec'))
+    return lines
+
+
 def main():
     os.environ.pop(ENV_NAME, None)
     payload = json.loads(sys.stdin.read())
     world()
     names = payload['names']
     out = {'initial': initial_table(names), 'runs': []}
+    hit: dict = {}
+    if payload.get('coverage'):
+        mon = sys.monitoring
+        mon.use_tool_id(mon.COVERAGE_ID, 'c17')
+
+        def on_line(code, line):
+            f = code.co_filename
+            if '/beartype/_conf/' in f:
+                hit.setdefault(f, set()).add(line)
+            return mon.DISABLE
+        mon.register_callback(mon.COVERAGE_ID, mon.events.LINE, on_line)
+        mon.set_events(mon.COVERAGE_ID, mon.events.LINE)
     for k, h in enumerate(payload['histories']):
         clear = not (k == 0 and payload.get('uncleared_first'))
         out['runs'].append(run_history(h, names, clear))
+    if payload.get('coverage'):
+        sys.monitoring.set_events(sys.monitoring.COVERAGE_ID, 0)
+        sys.monitoring.free_tool_id(sys.monitoring.COVERAGE_ID)
+        import beartype
+        root = os.path.dirname(os.path.dirname(beartype.__file__))
+        cov = {}
+        for rel in ANCHORED:
+            path = os.path.join(root, rel)
+            ex = executable_lines(path)
+            got = hit.get(path, set()) & ex
+            cov[rel] = {'executable_in_functions': len(ex), 'executed': len(got), 'not_executed': sorted(ex - got)[:60]}
+        out['coverage'] = cov
+    if payload.get('threads'):
+        out['threads'] = thread_burst(payload['histories'])
     sys.stdout.write(json.dumps(out) + '\n')
 
 
